@@ -163,6 +163,14 @@ theorem DealtFrom.length {next : σ → σ × Nat} {fuel t : Nat} {elems : List 
   | nil => rfl
   | cons _ _ _ _ _ _ _ _ _ ih => simp [ih]
 
+theorem DealtFrom.singleton {next : σ → σ × Nat} {fuel t : Nat} {e : Nat} {g g' : σ}
+    {polys : List (List Nat)} (h : DealtFrom next fuel t [e] g g' polys) :
+    ∃ cs, polys = [cs ++ [e]] ∧ drawFp next fuel (t - 1) g = some (g', cs) := by
+  cases h with
+  | cons _ _ _ g1 _ cs ps hdraw hrest =>
+    cases hrest
+    exact ⟨cs, rfl, hdraw⟩
+
 /-- consequences of the dealing relation used by recovery -/
 theorem DealtFrom.dealt {next : σ → σ × Nat} {fuel t : Nat} (ht : 1 ≤ t) {elems : List Nat} {g g' : σ}
     {polys : List (List Nat)} (h : DealtFrom next fuel t elems g g' polys)
